@@ -131,7 +131,18 @@ func genC20(r *PRNG, tier string) *Scenario {
 			// a writer that is simply never closed (outside the property: ends the run holding a buffer)
 			ops = append(ops, WOp{Kind: "nw", MT: 2, Pay: Payload{Len: 5, Seed: 1}, Chunks: []Chunk{{How: "w", N: 5}}, End: "abandon"})
 		}
-		setTasks(&l, realIsServer, []TaskCfg{{Kind: "writer", W: ops}})
+		tasks := []TaskCfg{{Kind: "writer", W: ops}}
+		if r.Chance(1, 3) {
+			// another goroutine pings, and sometimes sends a close while a message of the writer is open:
+			// that message then ends by an error and must still give its buffer back
+			cops := []WOp{{Kind: "waitstep", Lvl: r.Range(0, 10+6*len(ops))}}
+			if r.Bool() {
+				cops = append(cops, WOp{Kind: "ctl", MT: 9, Pay: Payload{Len: 4, Seed: 5}, DlMs: 0})
+			}
+			cops = append(cops, WOp{Kind: "ctl", MT: 8, Code: 1000, DlMs: 0})
+			tasks = append(tasks, TaskCfg{Kind: "ctl", W: cops})
+		}
+		setTasks(&l, realIsServer, tasks)
 		cc := ConnCfg{}
 		if withFaults && r.Bool() {
 			f := OpFault{Side: "w", AfterHead: true, K: r.Range(0, 3*n+4), Kind: writeFaultKinds[r.Intn(len(writeFaultKinds))], N: r.Pick([]int{0, 1, 5, 14, 100})}
